@@ -320,6 +320,10 @@ func Run(r *sim.R, prop string) {
 		topUnpackerCase(r, prop)
 		return
 	}
+	if t.Chance(1, 48, "top-level-array") {
+		topArrayCase(r, prop)
+		return
+	}
 	if t.Chance(1, 24, "evaluation-fault-below-generic-target") {
 		ifaceFaultCase(r, prop)
 		return
